@@ -1,5 +1,6 @@
 mod c04;
 mod c05;
+mod c08;
 mod sexp;
 mod slots;
 mod lexutil;
@@ -23,6 +24,7 @@ fn main() {
     let sink = match cmd {
         "c04" => c04::run(&tier, seed),
         "c05" => c05::run(&tier, seed),
+        "c08" => c08::run(&tier, seed),
         "pipe" => pipe::run(&tier, seed),
         "slots" => slots::run(&tier, seed),
         "optable" => {
